@@ -308,7 +308,8 @@ REGISTRY = {
                   ("PsProps.C01", "Ps.Props.C01_loop_segments_correct"), ("PsProps.C01", "Ps.Props.C01_tiny_feed"),
                   ("PsProps.C01", "Ps.Props.C01_feed_source"), ("PsProps.C01", "Ps.Props.C01_tiny_sieve"),
                   ("PsProps.C01", "Ps.Props.C01_inner_feed_primes"), ("PsProps.C01", "Ps.Props.C01_crossoff_one_segment"),
-                  ("PsProps.C01", "Ps.Props.C01_crossoff_across_segments")],
+                  ("PsProps.C01", "Ps.Props.C01_crossoff_across_segments"),
+                  ("PsProps.C01", "Ps.Props.C01_segment_clears_multiples")],
         tie=combine(("iter", iter_tie), ("segment", segment_tie), ("wheel", streams.WHEEL.tie), ("cross", streams.CROSS.tie),
                     ("presieve", streams.PRESIEVE.tie)),
         witness=combine_witness(iter_witness, streams.WHEEL.witness, streams.CROSS.witness, streams.PRESIEVE.witness, segment_witness), assumptions=ITER_ASSUME,
